@@ -111,7 +111,8 @@ def programs(draw, tier):
     seeds = st.one_of(st.sampled_from([0, 1, 2 ** 32 - 1]), st.integers(0, 2 ** 32 - 1), st.integers(0, 2 ** 32 - 1), st.integers(0, 2 ** 32 - 1))   # the boundary seeds are ordinary seeds
     return {"ops": ops, "seed": draw(seeds), "seed2": draw(seeds),
             "np_seeds": [draw(st.integers(0, 2 ** 31 - 1)) for _ in range(2)], "consume": draw(st.integers(0, 5)),
-            "seed_form": draw(st.sampled_from(["explicit", "explicit", "default", "cpu_gpu", "gpu_positional", "numpy_int", "keyword"]))}
+            "seed_form": draw(st.sampled_from(["explicit", "explicit", "default", "cpu_gpu", "gpu_positional", "numpy_int", "keyword"])),
+            "shared_evaluator": draw(st.booleans())}
 
 
 class Diverged(Exception):
@@ -138,20 +139,31 @@ def seed_lib(seed, form):
             qucumber.set_random_seed(seed, cpu=True, gpu=False, quiet=True)
 
 
-def run_program(ops, seed, tmp, form="explicit"):
+def run_program(ops, seed, tmp, form="explicit", shared_cb=None):
     import qucumber
     from qucumber.observables import System
     seed_lib(seed, form)
     outs = []
     state = None
+    last_construct = None
     for i, op in enumerate(ops):
         k = op["op"]
         if k == "construct":
+            last_construct = op
             state = construct(op)
             outs.append(params_flat(state))
         elif k == "reinit":
+            # reinitialising a (possibly trained / loaded) state consumes the generator exactly like constructing a fresh one and gives the same
+            # parameters: the seeded outcome does not depend on the object's history
+            rng0 = torch.get_rng_state()
             state.reinitialize_parameters()
-            outs.append(params_flat(state))
+            got = params_flat(state)
+            rng1 = torch.get_rng_state()
+            torch.set_rng_state(rng0)
+            fresh = params_flat(construct(last_construct))
+            require(torch.equal(got, fresh) and torch.equal(torch.get_rng_state(), rng1), "not-reproducible:reinitialise-vs-fresh",
+                    "under the same generator state reinitialize_parameters() of a used state gives other parameters (or consumes other random numbers) than constructing a fresh state")
+            outs.append(got)
         elif k == "sample":
             outs.append(state.sample(op["k"], num_samples=op["m"]).clone())
         elif k == "sample_from_space":
@@ -181,6 +193,8 @@ def run_program(ops, seed, tmp, form="explicit"):
         elif k == "fit":
             data, bases = train_data(state.num_visible, op["N"])
             kw = {"input_bases": bases} if len(state.networks) > 1 else {}
+            if shared_cb is not None:
+                kw["callbacks"] = [shared_cb]          # one evaluator object used by every fit of BOTH seeded runs (history not cleared in between)
             state.fit(data, epochs=op["epochs"], pos_batch_size=op["pbs"], neg_batch_size=op["nbs"], k=op["k"], lr=0.05, **kw)
             if not bool(torch.isfinite(params_flat(state)).all()):
                 raise Diverged()
@@ -220,14 +234,19 @@ def check_repro(c):
     with tempfile.TemporaryDirectory(prefix="vf_c14_") as tmp:
         np.random.seed(c["np_seeds"][0]); random.seed(c["np_seeds"][0])
         try:
-            a = run_program(c["ops"], c["seed"], tmp, c.get("seed_form", "explicit"))
+            shared_cb = None
+            if c.get("shared_evaluator"):
+                from qucumber.callbacks import ObservableEvaluator
+                from qucumber.observables import SigmaZ
+                shared_cb = ObservableEvaluator(1, [SigmaZ()], num_samples=4, num_chains=2, burn_in=1, steps=1)
+            a = run_program(c["ops"], c["seed"], tmp, c.get("seed_form", "explicit"), shared_cb)
         except Diverged:
             return {"nontrivial": False, "excluded": 1, "labels": ["diverged"]}
         np.random.seed(c["np_seeds"][1]); random.seed(c["np_seeds"][1])
         for _ in range(c["consume"]):
             np.random.rand(3); random.random(); np.random.permutation(5)
         torch.rand(1 + c["consume"])      # the torch stream is somewhere else as well before the second seeding call
-        b = run_program(c["ops"], c["seed"], tmp, c.get("seed_form", "explicit"))
+        b = run_program(c["ops"], c["seed"], tmp, c.get("seed_form", "explicit"), shared_cb)
     for i, (x, y) in enumerate(zip(a, b)):
         what = c["ops"][i]["op"] if i < len(c["ops"]) else "final parameters"
         require(deep_equal(x, y), f"not-reproducible:{what}", f"output #{i} ({what}) differs between two runs seeded identically through set_random_seed({c['seed']})",
